@@ -257,9 +257,12 @@ def replay_main(args):
 # ---------------------------------------------------------------------------------
 
 def write_replay(prop_id, violation):
-    os.makedirs(os.path.join(HERE, "replays"), exist_ok=True)
+    # sensitivity tools point the checks at a deliberately broken copy of the code: what fails there is not a regression
+    # of the real tree and must not land in the regression tier
+    rdir = os.environ.get("VERIF_NEW_REPLAY_DIR") or "replays"
+    os.makedirs(os.path.join(HERE, rdir), exist_ok=True)
     h = case_hash(violation["case"])[:12]
-    rel = os.path.join("replays", "%s-%s.json" % (prop_id, h))
+    rel = os.path.join(rdir, "%s-%s.json" % (prop_id, h))
     with open(os.path.join(HERE, rel), "w") as f:
         json.dump({"property": prop_id, "case": violation["case"], "fails": violation["fails"]}, f, indent=1, sort_keys=True)
     return rel
